@@ -127,3 +127,33 @@ enum LowerBetweenButNoTie {
     #[regex("[a-z]+")] Word,         // 2
     #[regex("a[a-z]c")] Triple,      // 6, never matches "ab": accepted
 }
+
+// ties among skip patterns only (no variant involved in the tie)
+#[derive(Logos)]
+#[logos(skip r"[ \t]+")]
+#[logos(skip r"\s+")]
+enum TiedSkips {
+    #[regex("[a-z]+")] Word,
+}
+
+#[derive(Logos)]
+#[logos(skip "[ ]+")]
+#[logos(skip "[ \n]+")]
+enum TiedPlainSkips {
+    #[token("x")] X,
+}
+
+#[derive(Logos)]
+#[logos(skip("//[a-z]*", priority = 5))]
+#[logos(skip("//[a-z0-9]*", priority = 5))]
+#[logos(skip("/[^/]", priority = 1))]
+enum TiedSkipsWithPriority {
+    #[regex("[a-z]+")] Word,
+}
+
+#[derive(Logos)]
+#[logos(skip("[ \t]+", priority = 3))]
+#[logos(skip r"\s+")]
+enum SkipsResolvedByPriority {
+    #[regex("[a-z]+")] Word,
+}
